@@ -638,9 +638,9 @@ Definition top_of_previous_rung (m : mgr) (bid pos : nat) : result tid :=
       end
   end.
 
-(* _parent_rung[(offset, level)] = (bracket_delta, rung_index); for offset 0 the code stores
-   bracket_delta = num_bracket_offsets - rung_index, which is <= 0 when the rung index reaches the
-   number of brackets per iteration (an integer, so Z here) *)
+(* _parent_rung[(offset, level)] = (bracket_delta, rung_index); for offset 0: the base rung of the
+   bracket with offset rung_index of the previous iteration if there is one, else the rung with the
+   same level in the bracket just to the left *)
 Fixpoint index_of_level (rs : rung_system) (lv : Z) (i : nat) : option nat :=
   match rs with
   | [] => None
@@ -649,7 +649,10 @@ Fixpoint index_of_level (rs : rung_system) (lv : Z) (i : nat) : option nat :=
 Definition parent_rung (m : mgr) (off : nat) (lv : Z) : option (Z * nat) :=
   match index_of_level (nth off (m_rs m) []) lv 0 with
   | None => None
-  | Some ri => if Nat.eqb off 0 then Some ((Z.of_nat (length (m_rs m)) - Z.of_nat ri)%Z, 0%nat)
+  | Some ri => if Nat.eqb off 0 then
+                 if Nat.ltb ri (length (m_rs m))
+                 then Some ((Z.of_nat (length (m_rs m)) - Z.of_nat ri)%Z, 0%nat)
+                 else Some (1%Z, (ri - length (m_rs m) + 1)%nat)
                else Some (1%Z, S ri)
   end.
 
